@@ -126,6 +126,37 @@ def unescape_names(p):
     return p
 
 
+def lower_page_selectors(p):
+    """projection with the selector of every @page rule lower-cased — only used to recognise the region of known
+    finding C02-page-pseudo-case"""
+    out = []
+    for r in p:
+        if isinstance(r, tuple) and r and r[0] == 'page':
+            out.append((r[0], r[1].lower()) + tuple(r[2:]))
+        elif isinstance(r, tuple) and r and r[0] == 'media':
+            out.append(r[:3] + (lower_page_selectors(r[3]),))
+        else:
+            out.append(r)
+    return out
+
+
+def has_calc(decl):
+    """a value with a calc() whose operator needs the white space around it (+ and -)"""
+    return any(c[0] == 'calc' and c[2] in '+-' for c in decl[1])
+
+
+def without_margin_calc(ast):
+    """the abstract sheet without the margin-box declarations whose value contains calc() — only used to recognise
+    the region of known finding C02-margin-box-space-dropped"""
+    out = []
+    for r in ast:
+        if r[0] == 'page':
+            out.append(r[:3] + ([(m, [d for d in ds if not has_calc(d)]) for m, ds in r[3]],))
+        else:
+            out.append(r)
+    return out
+
+
 def strip_comments(p):
     """remove comment entries from a projection (for comparing spellings that differ in comments)"""
     if isinstance(p, list):
@@ -306,7 +337,10 @@ class C02(Check):
                 ctx.disagree('projSheet(parseSheet(tokenize text)) vs abstract sheet', inp, first_diff(got, want), None)
                 continue
             mp = model_dom(model, toks)
-            if mp != real:
+            if mp != real and drop_rejected_margin_decls(mp) == real:
+                ctx.violate('the DOM has the declarations of every margin box', {'text': text},
+                            {'first_difference': first_diff(real, mp)}, known='C02-margin-box-space-dropped')
+            elif mp != real:
                 # model and implementation differ on a well-formed sheet whose model parse IS the abstract sheet:
                 # the implementation does not build what the source denotes
                 ctx.violate('the DOM lists, in source order, exactly the rules that were written, each with the '
@@ -365,7 +399,10 @@ class C02(Check):
             got, want = summary(base[1]), expected_summary(ast)
             ctx.case(key=('canon', canon_text), nontrivial=True, kind='canonical',
                      sample={'canonical': canon_text[:300]})
-            if got != want:
+            if got != want and got == expected_summary(without_margin_calc(ast)):
+                ctx.violate('the DOM has the declarations of every margin box', {'text': canon_text},
+                            {'dom_summary': first_diff(got, want)}, known='C02-margin-box-space-dropped')
+            elif got != want:
                 ctx.violate('the DOM lists, in source order, exactly the rules that were written (kinds, specificities, '
                             'declaration names / component counts / priorities, import targets, namespace bindings, page '
                             'selectors and margin boxes, comments)', {'text': canon_text, 'ast': ast},
@@ -383,6 +420,9 @@ class C02(Check):
                 if a != b and unescape_names(a) == unescape_names(b):
                     ctx.violate('same DOM under CSS escapes of ordinary name characters', {'text': text, 'canonical': canon_text},
                                 {'first_difference': first_diff(b, a)}, known='C02-simple-escapes-kept')
+                elif a != b and lower_page_selectors(unescape_names(a)) == lower_page_selectors(unescape_names(b)):
+                    ctx.violate('same DOM under letter case of the pseudo-page name', {'text': text, 'canonical': canon_text},
+                                {'first_difference': first_diff(b, a)}, known='C02-page-pseudo-case')
                 elif a != b:
                     clause = ('the result is the same for every way of writing the sheet (white space, comments, case of '
                               'case-insensitive parts, quote style, escapes of name characters)')
@@ -398,6 +438,13 @@ class C02(Check):
 
     def known(self, ctx, finding):
         w = finding['witness']['data']
+        if finding['id'] == 'C02-margin-box-space-dropped':
+            a = work({'texts': [(w['text'], True, True), (w['same_declaration_in_page_block'], True, True)]})
+            if a[0][0] != 'ok' or a[1][0] != 'ok':
+                return True
+            margin, plain = a[0][1][0], a[1][1][0]
+            # the declaration survives in the page block itself but not in the margin box
+            return len(plain[2]) == 1 and margin[3] and len(margin[3][0][1]) == 0
         a = work({'texts': [(w['canonical'], True, True), (w['text'], True, True)]})
         return a[0][0] == 'ok' and a[1][0] == 'ok' and a[0][1] != a[1][1]
 
@@ -496,6 +543,20 @@ def real_struct(text):
     except Exception as e:
         return ('RAISE', '%s: %s' % (type(e).__name__, e))
     return _real_rules(sheet.cssRules)
+
+
+def drop_rejected_margin_decls(mp):
+    """the model's DOM without the margin-box declarations whose white-space-free value the real PropertyValue
+    rejects (value None) — the region of known finding C02-margin-box-space-dropped"""
+    out = []
+    for r in mp:
+        if r[0] == 'page':
+            out.append(r[:3] + [[[m, [d for d in ds if not (d[0] == 'decl' and d[2] is None)]] for m, ds in r[3]]])
+        elif r[0] == 'media':
+            out.append(r[:3] + [drop_rejected_margin_decls(r[3])])
+        else:
+            out.append(r)
+    return out
 
 
 def model_abstract(model, toks):
